@@ -730,40 +730,43 @@ BINARY_AVX2_ONLY (cmpgtsq, pcmpgtq)
 BINARY_AVX2_ONLY (addq, paddq)
 BINARY_AVX2_ONLY (subq, psubq)
 
+/* Only the low 1 << loop_shift elements of the source belong to the current
+ * iteration; what the register holds above them (a splatted constant, the
+ * result of arithmetic on one) must not be accumulated.  Returns the register
+ * to add: the source itself, or a scratch copy with the rest cleared. */
+static int
+avx_acc_source (OrcCompiler *p, int src, int size)
+{
+  const int bytes = size << p->loop_shift;
+  int tmp;
+
+  if (bytes >= 32) return src;
+  tmp = orc_compiler_get_temp_reg (p);
+  if (bytes >= 16) {
+    /* a 128-bit move clears the upper lane */
+    orc_avx_sse_emit_movdqa (p, src, tmp);
+  } else {
+    orc_avx_sse_emit_pslldq_imm (p, 16 - bytes, src, tmp);
+  }
+  return tmp;
+}
+
 static void
 avx_rule_accw (OrcCompiler *p, void *user, OrcInstruction *insn)
 {
-  const int src = p->vars[insn->src_args[0]].alloc;
+  const int src = avx_acc_source (p, p->vars[insn->src_args[0]].alloc, 2);
   const int dest = p->vars[insn->dest_args[0]].alloc;
 
-  const int size = p->vars[insn->src_args[0]].size << p->loop_shift;
-
-  // More than one element and it's unsafe
-  if (size >= 2) {
-    orc_avx_emit_paddw (p, dest, src, dest);
-  } else {
-    orc_avx_sse_emit_paddw (p, dest, src, dest);
-  }
+  orc_avx_emit_paddw (p, dest, src, dest);
 }
 
 static void
 avx_rule_accl (OrcCompiler *p, void *user, OrcInstruction *insn)
 {
-  const int src = p->vars[insn->src_args[0]].alloc;
+  const int src = avx_acc_source (p, p->vars[insn->src_args[0]].alloc, 4);
   const int dest = p->vars[insn->dest_args[0]].alloc;
 
-  if (p->loop_shift == 0) {
-    orc_avx_sse_emit_pslldq_imm (p, 12, src, src);
-  }
-
-  const int size = p->vars[insn->src_args[0]].size << p->loop_shift;
-
-  // More than one element and it's unsafe
-  if (size >= 4) {
-    orc_avx_emit_paddd (p, dest, src, dest);
-  } else {
-    orc_avx_sse_emit_paddd (p, dest, src, dest);
-  }
+  orc_avx_emit_paddd (p, dest, src, dest);
 }
 
 static void
